@@ -24,6 +24,13 @@ def units(tier):
     # requested load size / segment must fit the 16-bit catalog fields: refused at the edit, image unchanged
     from contracts import atomic as A
     us += [Unit(A.Refused, {'sid': k}) for k in ('add_eltorito:load-size-too-big', 'add_eltorito:load-size-negative', 'add_eltorito:load-segment-too-big')]
+    # whole images: an independent El Torito reader on the written image, for histories around add_eltorito / rm_eltorito, fresh and reopened
+    from contracts import boot as B
+    for h in sorted(B.HISTORIES):
+        if h == 'floppy' and tier == 'quick':
+            continue        # a 1.44 MB image: thorough tier only
+        us.append(Unit(B.BootImage, {'history': h}))
+        us.append(Unit(B.BootImage, {'history': h, 'reopen': True}))
     return us
 
 
@@ -31,25 +38,26 @@ def canaries(tier):
     return [Unit(E.EntryRecord, {'_canary': True})]
 
 
-OPTS = {'quick': {'timeout_ms': 30000}}
 META = {}
+OPTS = {'quick': {'timeout_ms': 30000, 'unit_timeout_s': 1200}, 'thorough': {'unit_timeout_s': 3000}}
 
 META = {
     'assumptions': [
         'boot-info checksum: E family over the boot file length n (quick: boundary lengths around 64 and one multi-sector length; thorough: 0..139 and sector boundaries), symbolic content, plus members with bytes following the file in the source object',
         'boot catalog: E family over the number of sections k (quick 0,1,2,3,31; thorough 0..31), symbolic load sizes, no-emulation entries; platform in {0, 0xef}',
+        'B (bounded scenarios, executed by pyvc on the real code, decoded by an independent El Torito reader written from the specification): eleven histories (boot file moving after add_eltorito, boot info table incl. a file ending just after a sector boundary, explicit load size / segment / not bootable, three entries with EFI and Mac platforms on a Joliet image, floppy emulation (thorough), boot file in a sub-directory with Rock Ridge, rm_eltorito, rm_eltorito followed by a new add_eltorito, boot file without a name left), each on the fresh object and after write -> open -> write; boot contents symbolic where a single small boot file is involved, concrete otherwise',
         'loop invariants (validation checksum: csum = word sum mod 2^16; boot-info checksum: csum = word sum mod 2^32 with a ghost sum) are proved per iteration with the state cut at every iteration',
     ],
     'out_of_reach': [
-        'that each entry load_rba equals the extent the boot file finally gets is proved for the placement loop body (C12 fragment contract, entry-placed-at-current-extent) but the whole-image layout composition (C04) is not machine-checked',
-        'catalog reachable as a file with identical bytes (catalog branch of _get_file_from_iso_fp) and the read-back overlay of the table are not under contract yet',
-        'hdmbrcheck and the hard-disk emulation path of add_eltorito; add_eltorito bound on load size (struct.error at write for > 65535 sectors: candidate K23)',
+        'that each entry load_rba equals the extent the boot file finally gets is proved for the placement loop body (C12 fragment contract) and checked end to end on the scenario images; arbitrary histories are not covered',
+        'reading the catalog / the patched boot file back through get_file_from_iso_fp (the image bytes are checked, not the read-back API)',
+        'hdmbrcheck and the hard-disk emulation path of add_eltorito',
     ],
-    'bounded': [],
+    'bounded': ['11 El Torito histories x (fresh, reopened)'],
 }
 
 MANIFEST = {
-    'level_text': 'Proof (deductive): validation-entry checksum (for every 32-byte entry, by loop invariant), validation/initial/section entry layouts and media-type table, catalog layout for k sections, catalog pointer in the boot record, boot-info-table layout and checksum = word sum of the file bytes from offset 64 (loop invariant with ghost sum), El Torito removal detaching entry and table; all on the real ASTs, contracts from El Torito 1.0 and the C11 statement. Two defects found and repaired (K24, K25).',
-    'level_note': 'Trusted: pyvc (per-path CPython cross-check, canary), z3, struct/file models. Lengths/section counts are enumerated families (quick run = boundary members only). Not decided: whole-image placement (C04 composition), catalog-as-file bytes, read-back overlay, hard-disk emulation checks.',
+    'level_text': 'Proof (deductive): validation-entry checksum (for every 32-byte entry, by loop invariant), validation/initial/section entry layouts and media-type table, catalog layout for k sections, catalog pointer in the boot record, boot-info-table layout and checksum = word sum of the file bytes from offset 64 (loop invariant with ghost sum), El Torito removal detaching entry and table; all on the real ASTs, contracts from El Torito 1.0 and the C11 statement. Plus whole-image scenarios with an independent El Torito reader (boot record at 17, validation checksum, entries in order with flags / media / segment / load size / platform and the sector where the boot file bytes start, section headers, catalog as a file, boot info table in the stored file, removal leaving nothing), fresh and after reopen. Five defects found and repaired (K24, K25, K23 load size range, K49 section platform, K50 table recognition).',
+    'level_note': 'Trusted: pyvc (per-path CPython cross-check, canary), z3, struct/file models. Lengths/section counts are enumerated families (quick run = boundary members only). Whole-image placement is bounded to the scenario histories. Not decided: read-back API of catalog / patched file, hard-disk emulation checks.',
     'design_ref': 'DESIGN.md section 4 C11',
 }
